@@ -165,7 +165,7 @@ def install(reg):
         raises_iff={"OverflowError": "not (0 <= msgclass < 256 and 0 <= msgid < 256)"},
         modifies=[],
     ))
-    reg.add(Contract(
+    gb = Contract(
         H + "get_bits",
         params={"bitfield": "bytes", "bitmask": "int"},
         requires=[("nonempty", "1 <= len(bitfield) <= 8"), ("mask", "0 < bitmask < 2 ** 64")],
@@ -177,7 +177,10 @@ def install(reg):
         loops={1: Loop(inv=[("pos", "bitmask > 0"), ("idx", "0 <= i <= 64"),
                             ("scaled", "bitmask * 2 ** i == old_bitmask")],
                        decreases="bitmask")},
-    ))
+    )
+    # run-time evaluation (sampling, replay) needs a value for the witness: the number of trailing zero bits
+    gb.native_witness = {"final_i": "tzc(bitmask)"}
+    reg.add(gb)
     reg.add(Contract(
         H + "cfgkey2name",
         params={"keyid": "int"},
